@@ -574,3 +574,23 @@ def _c16(prop, tier):
 
 TABLE["C16"] = dict(run=_c16, replay=lambda p, path: smallfam.replay(p, path, driver="shared", trace_module="SharedQuote_Trace", trace_consts="  N = 1\n", race=True,
                                                                       harness_env=dict(_os.environ, GORACE="exitcode=0 halt_on_error=0")))
+
+# ------------------------------------------------------------------------------------------
+CCEL_MEASURED = "{0, 1, 2}"   # cross-checked against the log itself at run time (TCall binds the harness-computed set)
+
+
+def _key_ccel(call, evs):
+    i = call["input"]
+    return "v=%s,p=%s,f=%s,lvl=%s" % (i["v"], i["p"], i["f"], i["lvl"])
+
+
+def _c18(prop, tier):
+    cfg = "CONSTANTS\n  Measured = %s\nSPECIFICATION Spec\nINVARIANTS TypeOK StateOnlyBehindBothGates ErrorOtherwise ExportCase\nCHECK_DEADLOCK FALSE\n" % CCEL_MEASURED
+    code, _, _ = smallfam.run(prop, tier, mc_module="Ccel_MC", mc_cfg=cfg, driver="ccel", trace_module="Ccel_Trace", trace_consts="  Measured = %s\n" % CCEL_MEASURED,
+                              key_fn=_key_ccel, required_actions=("VerifyGate", "PolicyGate", "ExtractBank", "Replay"),
+                              assumptions=["the sample CCEL table / log of testing/testdata with the sample quote's header and TD body, re-signed under a generated PKI",
+                                           "the set of measured registers is computed from the log with go-eventlog (pinned dependency) and must equal the specification's constant"])
+    return code
+
+
+TABLE["C18"] = dict(run=_c18, replay=lambda p, path: smallfam.replay(p, path, driver="ccel", trace_module="Ccel_Trace", trace_consts="  Measured = %s\n" % CCEL_MEASURED))
